@@ -13,11 +13,17 @@ Inductive case :=
 | CFrame (demux_block demux_host prev_block : Z)
          (msgs : list (Z * list (elem Z)))            (* destination replica, batch *)
          (bytes : list Z)                             (* what `remote_send` wrote, concatenated *)
-         (decoded : list (Z * Z * Z * Z * list (elem Z))).
+         (decoded : list (Z * Z * Z * Z * list (elem Z)))
+| CIdle (pause_ms sent : Z) (got : list Z) (completed : bool).
+             (* a whole job over real TCP links that stay idle for [pause_ms]: the sorted sink content *)
              (* what `remote_recv` returned: dest block, dest host, dest replica, sender block, batch *)
+
+Definition idle_ok (sent : Z) (got : list Z) (completed : bool) : bool :=
+  completed && list_eqb Z.eqb got (map Z.of_nat (seq 0 (Z.to_nat sent))).
 
 Definition corr_ok (c : case) : bool :=
   match c with
+  | CIdle _ sent got completed => idle_ok sent got completed   (* a link is a reliable FIFO in the model: time does not exist *)
   | CLink l => link_corr_ok l
   | CFrame db dh pb msgs bytes decoded =>
       (* the model decodes the implementation's bytes into as many frames, with the header
@@ -46,6 +52,7 @@ Definition got (c : lcase) (b r : nat) : list (elem Z) := concat (impl_recv c b 
 
 Definition prop_ok (c : case) : bool :=
   match c with
+  | CIdle _ sent got completed => idle_ok sent got completed
   | CLink l =>
       forallb (fun '(b, r) =>
         (* no empty batch; Fixed(n) / Adaptive(n, _): at most n elements per batch *)
